@@ -348,13 +348,14 @@ func runSeq(s seqCase) result {
 		// nothing stranded: once producers stopped, repeated calls of ONE consumer
 		// operation (drawn) must retrieve every accepted item, with no further Offer and
 		// no other call that could wake the loader on its behalf
-		// With an unbuffered channel (C=0) the non-blocking loader can only hand over to a consumer that
-		// is waiting at that moment, so only consumers that wait and retry (TakeWithTimeout, timed channel
-		// receive: every attempt posts a wake-up and then waits) are required to make progress there.
-		if cfg.C == 0 && !cfg.Plain && s.Drain != cTakeT && s.Drain != cChan {
-			s.Drain = cTakeT
+		// With an unbuffered channel (C=0) the statement does not claim the stranding clause: the non-blocking
+		// loader can only hand over to a consumer that is ALREADY waiting. Exactly that much is checked there
+		// (drainWaiting): a consumer that is parked in Take() when a loader pass runs gets the head item.
+		if cfg.C == 0 && !cfg.Plain {
+			drainWaiting(q, &model, fail, &res)
+			return
 		}
-		if cfg.C >= 1 || (!cfg.Plain && cfg.B > 0) {
+		if cfg.C >= 1 {
 			attempts, lastProgress := 0, time.Now()
 			for len(model) > 0 {
 				var v int
@@ -411,7 +412,7 @@ func runSeq(s seqCase) result {
 					continue
 				}
 				if attempts > 2000 && time.Since(lastProgress) > vlib.StallBudget() {
-					fail("C07/stranded", "accepted items %v were never delivered: %d consecutive %s attempts over %v got nothing and no producer is active", model, attempts, []string{"Take", "TakeWithTimeout", "Poll", "<-GetChannel()"}[s.Drain], time.Since(lastProgress).Round(time.Millisecond))
+					fail("C07/stranded", "accepted items %v were never delivered: %d consecutive %s attempts over %v got nothing and no producer is active (loader: %d wake-ups, %d hand-over attempts in total)\n%s", model, attempts, []string{"Take", "TakeWithTimeout", "Poll", "<-GetChannel()"}[s.Drain], time.Since(lastProgress).Round(time.Millisecond), q.sched.Hits("bcq.load.wake"), q.sched.Hits("bcq.load.betweenPollOffer"), vlib.AllStacks())
 					return
 				}
 				if attempts > 50 {
@@ -473,6 +474,88 @@ type concCase struct {
 	PutEvery  int       `json:"putEvery"`
 	Gap       int       `json:"gap"`
 	Plan      vlib.Plan `json:"plan"`
+}
+
+// waitingTake is the consumer of drainWaiting (its name is looked up in goroutine dumps).
+func waitingTake(q *queue, out chan<- [2]int) {
+	v, err := q.b.Take()
+	if err != nil {
+		out <- [2]int{0, 1}
+		return
+	}
+	out <- [2]int{v, 0}
+}
+
+// takeParked reports whether a goroutine running waitingTake is parked in a channel receive.
+func takeParked() bool {
+	for _, g := range strings.Split(vlib.AllStacks(), "\n\n") {
+		if strings.Contains(g, "c07.waitingTake") {
+			hdr := g
+			if i := strings.Index(g, "\n"); i >= 0 {
+				hdr = g[:i]
+			}
+			return strings.Contains(hdr, "[chan receive")
+		}
+	}
+	return false
+}
+
+// drainWaiting (channelCapacity 0): for every undelivered item a consumer is started in Take() and, once
+// it is parked on the channel, loader passes are triggered with GetChannel() (which posts a wake-up and
+// consumes nothing). A pass that runs while the consumer waits must hand the head item over. Three
+// observed passes (hook bcq.load.wake) without a delivery are a violation; a stall without observed
+// passes is inconclusive.
+func drainWaiting(q *queue, model *[]int, fail func(string, string, ...any), res *result) {
+	for len(*model) > 0 {
+		out := make(chan [2]int, 1)
+		go waitingTake(q, out)
+		if !vlib.WaitUntil(vlib.StallBudget(), func() bool { return takeParked() || len(out) > 0 }) {
+			res.inconclusive = "consumer did not park"
+			return
+		}
+		wake0 := q.sched.Hits("bcq.load.wake")
+		begin := time.Now()
+		var r [2]int
+		got := false
+		for !got {
+			select {
+			case r = <-out:
+				got = true
+				continue
+			default:
+			}
+			q.b.GetChannel()
+			select {
+			case r = <-out:
+				got = true
+			case <-time.After(time.Millisecond):
+			}
+			if !got && time.Since(begin) > vlib.StallBudget() {
+				if passes := q.sched.Hits("bcq.load.wake") - wake0; passes >= 3 {
+					fail("C07/stranded", "channelCapacity 0: a consumer parked in Take() was not served although the loader ran %d passes (%d hand-over attempts in total) with %d accepted items %v held\n%s", passes, q.sched.Hits("bcq.load.betweenPollOffer"), len(*model), *model, vlib.AllStacks())
+				} else {
+					res.inconclusive = "loader passes not observed"
+				}
+				return
+			}
+		}
+		if r[1] != 0 {
+			fail("C07/error-value", "Take() of a waiting consumer failed on an open queue")
+			return
+		}
+		if r[0] != (*model)[0] {
+			fail("C07/fifo", "waiting Take returned %d, expected %d (model %v)", r[0], (*model)[0], *model)
+			return
+		}
+		*model = (*model)[1:]
+	}
+	if !q.quiesce() {
+		res.inconclusive = "loader pass not observed"
+		return
+	}
+	if c := q.Count(); c != 0 {
+		fail("C07/count", "Count()=%d after everything was delivered", c)
+	}
 }
 
 func (c concCase) String() string {
